@@ -186,6 +186,7 @@ fn partial_cover<S: Subject>(sim: &Sim<S>, know: Bits) -> bool {
 
 fn add<S: Subject>(jobs: &mut Vec<Box<dyn JobT>>, variant: &str, disc: Disc, w: Weights, eq_ex: &'static [Class], q: u64, t: u64, floor: f64) {
     let pc = PlanCfg::new(w).steps(6, 28).editors(2, 4).observers(0, 2);
+    let pc = pc.long_share(S::LONG);
     let ctx = Ctx::new(disc).newest();
     let label = format!("{}/{:?}/{variant}", S::name(), disc);
     jobs.push(job(label, q, t, { let pc = pc.clone(); move || plan_strategy(&pc) }, move |p: &Plan, st: &mut Stats| check_equal_state::<S>(p, &ctx, st, eq_ex)).decoder({ let pc = pc.clone(); move |d: &[u8]| decode_plan(&pc, d) })
@@ -198,13 +199,19 @@ pub fn property() -> Property {
     let ops = || Weights::ops_only().with_redeliver(14);
     let mixed = || Weights::mixed().with_redeliver(10);
     add::<SOrswot>(&mut jobs, "ops", Disc::Causal, ops(), &[], 15000, 150_000, 0.03);
+    add::<SOrswotBig>(&mut jobs, "ops", Disc::Causal, ops(), &[], 3750, 37500, 0.015);
     add::<SOrswot>(&mut jobs, "ops+merges", Disc::Fifo, mixed(), &[], 15000, 150_000, 0.03);
+    add::<SOrswotBig>(&mut jobs, "ops+merges", Disc::Fifo, mixed(), &[], 3750, 37500, 0.015);
     add::<SMVReg>(&mut jobs, "ops+merges", Disc::Any, mixed(), &[], 15000, 150_000, 0.03);
     add::<MapOrswot>(&mut jobs, "ops", Disc::Causal, ops(), &[Class::T4], 15000, 150_000, 0.03);
+    add::<MapOrswotBig>(&mut jobs, "ops", Disc::Causal, ops(), &[Class::T4], 3750, 37500, 0.015);
     add::<MapOrswot>(&mut jobs, "ops+merges", Disc::Causal, mixed(), &[Class::T1, Class::T4], 15000, 150_000, 0.03);
+    add::<MapOrswotBig>(&mut jobs, "ops+merges", Disc::Causal, mixed(), &[Class::T1, Class::T4], 3750, 37500, 0.015);
     add::<MapMapOrswot>(&mut jobs, "ops", Disc::Causal, ops(), &[Class::T4], 12000, 100_000, 0.03);
     add::<MapMVReg>(&mut jobs, "ops", Disc::Causal, ops(), &[Class::T2, Class::T2b], 15000, 150_000, 0.03);
+    add::<MapMVRegBig>(&mut jobs, "ops", Disc::Causal, ops(), &[Class::T2, Class::T2b], 3750, 37500, 0.015);
     add::<MapMVReg>(&mut jobs, "ops+merges", Disc::Causal, mixed(), &[Class::T1, Class::T2, Class::T2b, Class::T5], 15000, 150_000, 0.03);
+    add::<MapMVRegBig>(&mut jobs, "ops+merges", Disc::Causal, mixed(), &[Class::T1, Class::T2, Class::T2b, Class::T5], 3750, 37500, 0.015);
     add::<MapMapMVReg>(&mut jobs, "ops", Disc::Causal, ops(), &[Class::T2, Class::T2b, Class::T4], 12000, 100_000, 0.03);
     add::<SList>(&mut jobs, "ops", Disc::Causal, ops(), &[], 9000, 60_000, 0.03);
     add::<SGList>(&mut jobs, "ops+merges", Disc::Any, mixed(), &[], 6000, 40_000, 0.03);
